@@ -1,5 +1,6 @@
 import RPVerif.Lemmas.States
 import RPVerif.Gen.States
+import RPVerif.Model.Callbacks
 
 /-!
 # C13 — A dying pilot fails its own tasks and only those
@@ -202,5 +203,25 @@ theorem C13_callback_order (pre post pmgr : List Cb) (tm : Cb) (h : ∀ c ∈ pr
     running (witness for the order) -/
 theorem C13_callback_order_witness :
     (0 : Nat) ∉ runChain ([⟨7, true⟩] ++ [⟨0, false⟩]) := by decide
+
+/-! ## application callbacks that use the registry while a pilot state is delivered -/
+
+theorem C13_pilot_cb_snapshot : Gen.pilotCbSnapshot = true ∧ Gen.pmgrCbSnapshot = true := by decide
+
+/-- **the task manager's callback is reached whatever the application's callbacks do to the registry**:
+    every callback registered on the pilot (and then every one registered on the pilot manager) when a
+    state is delivered is called exactly once and no exception escapes the walk - a one-shot callback
+    that unregisters itself at the final state does not keep the task manager from failing the tasks of
+    the dead pilot.  Holds because both loops walk a copy of the registry (`C13_pilot_cb_snapshot`, read
+    from the source; repaired by f9f0a5a - the walk over the live registry lost every later callback). -/
+theorem C13_registry_use_harmless (reg : List Nat) (act : Nat → Callbacks.Edit) :
+    (Callbacks.deliver Gen.pilotCbSnapshot reg act).1 = reg ∧ (Callbacks.deliver Gen.pilotCbSnapshot reg act).2.2 = false ∧
+    (Callbacks.deliver Gen.pmgrCbSnapshot reg act).1 = reg ∧ (Callbacks.deliver Gen.pmgrCbSnapshot reg act).2.2 = false := by
+  rw [C13_pilot_cb_snapshot.1, C13_pilot_cb_snapshot.2]
+  exact ⟨rfl, rfl, rfl, rfl⟩
+
+/-- the defect that was repaired (test): walking the live registry, a one-shot application callback (1)
+    registered before the task manager's (0) ends the walk - the task manager is never called -/
+example : Callbacks.deliver false [1, 0] (fun id => if id = 1 then .unregister 1 else .nothing) = ([1], [0], true) := by decide
 
 end RPVerif.C13
